@@ -166,7 +166,7 @@ Qed.
 Lemma std_distance_tv Rc k sg y zl M N :
   (sg = 1 \/ sg = -1) ->
   k*(N*N) + 0*0 + M*M + N*N <> 0 ->
-  0 <= (2*k*N*zl + 2*0*0 + 2*M*y - 2*N*Rc + 2*N*zl) * (2*k*N*zl + 2*0*0 + 2*M*y - 2*N*Rc + 2*N*zl)
+  0 < (2*k*N*zl + 2*0*0 + 2*M*y - 2*N*Rc + 2*N*zl) * (2*k*N*zl + 2*0*0 + 2*M*y - 2*N*Rc + 2*N*zl)
        - 4 * (k*(N*N) + 0*0 + M*M + N*N) * (k*(zl*zl) - 2*Rc*zl + 0*0 + y*y + zl*zl) ->
   N <> 0 ->
   0 <= conic_tv Rc k sg y zl M N ->
@@ -175,20 +175,7 @@ Lemma std_distance_tv Rc k sg y zl M N :
   = Fin (conic_tv Rc k sg y zl M N).
 Proof.
   intros Hsg Ha Hd HN Ht Hsel.
-  unfold conic_tv, conic_to in *. cbv zeta in *.
-  set (a := k*(N*N) + 0*0 + M*M + N*N) in *.
-  set (b := 2*k*N*zl + 2*0*0 + 2*M*y - 2*N*Rc + 2*N*zl) in *.
-  set (c := k*(zl*zl) - 2*Rc*zl + 0*0 + y*y + zl*zl) in *.
-  set (d := b*b - 4*a*c) in *.
-  destruct Hsg as [-> | ->].
-  - assert (E2 : (- b - 1 * sqrt d) / (2*a) = (- b + - sqrt d) / (2*a)) by (f_equal; ring).
-    assert (E1 : (- b + 1 * sqrt d) / (2*a) = (- b + sqrt d) / (2*a)) by (f_equal; ring).
-    rewrite E2 in *. rewrite E1 in *.
-    apply (select_t2 k N M zl y Rc Ha Hd HN Ht). right. exact Hsel.
-  - assert (E2 : (- b - -1 * sqrt d) / (2*a) = (- b + sqrt d) / (2*a)) by (f_equal; ring).
-    assert (E1 : (- b + -1 * sqrt d) / (2*a) = (- b + - sqrt d) / (2*a)) by (f_equal; ring).
-    rewrite E2 in *. rewrite E1 in *.
-    apply (select_t1 k N M zl y Rc Ha Hd HN Ht). right. exact Hsel.
+  exact (select_root k N M zl y Rc Ha Hd HN sg Hsg Ht Hsel).
 Qed.
 
 Definition step_ok (rs : rsurf) (st : R * R * R * R) : Prop :=
@@ -199,7 +186,7 @@ Definition step_ok (rs : rsurf) (st : R * R * R * R) : Prop :=
   | RPlane => 0 <= - zl / N
   | RStd Rc k sg =>
       k*(N*N) + 0*0 + M*M + N*N <> 0 /\
-      0 <= (2*k*N*zl + 2*0*0 + 2*M*y - 2*N*Rc + 2*N*zl) * (2*k*N*zl + 2*0*0 + 2*M*y - 2*N*Rc + 2*N*zl)
+      0 < (2*k*N*zl + 2*0*0 + 2*M*y - 2*N*Rc + 2*N*zl) * (2*k*N*zl + 2*0*0 + 2*M*y - 2*N*Rc + 2*N*zl)
            - 4 * (k*(N*N) + 0*0 + M*M + N*N) * (k*(zl*zl) - 2*Rc*zl + 0*0 + y*y + zl*zl) /\
       0 <= conic_tv Rc k sg y zl M N /\
       Rabs (zl + conic_tv Rc k sg y zl M N * N) < Rabs (zl + conic_to Rc k sg y zl M N * N) /\
@@ -287,7 +274,7 @@ Proof.
     { eapply Ev_mono; [|apply (E2_ev_pos _ _ HT)]; [intros; cbv beta in *; lra|].
       cbn [r_z rs]. lra. }
     generalize (Af_ev_neq Rc k sg N0 (fM F) (fN F) (w * N0) HN0 Hpos Hk HM HN); intros Ha.
-    generalize (Df_ev_nonneg Rc k sg N0 (z0 - zs) (fY F) (fZL rs F) (fM F) (fN F) h (w * N0) HN0 Hpos Hk Hy HM HN HZL);
+    generalize (Df_ev_pos Rc k sg N0 (z0 - zs) (fY F) (fZL rs F) (fM F) (fN F) h (w * N0) HN0 Hpos Hk Hy HM HN HZL);
       intros Hd.
     generalize (zv_conv Rc k sg N0 (z0 - zs) (fY F) (fZL rs F) (fM F) (fN F) h (w * N0) HN0 Hsg Hpos Hk Hy HM HN HZL)
                (zo_conv Rc k sg N0 (z0 - zs) (fY F) (fZL rs F) (fM F) (fN F) h (w * N0) HN0 Hsg Hpos Hk Hy HM HN HZL);
